@@ -183,7 +183,7 @@ func checkC14(r *Report, known []Finding) {
 		"representatives up to length L plus pattern-derived samples; every start offset; engines driven directly (PikeVM entry points, BoundedBacktracker *WithState with a " +
 		"reused state, lazy DFA with tiny caches and clear limits); reference = Lean model Cx.Nfa.btSearchAt/btIsMatch on the dumped NFA; " +
 		"non-trivial = reference finds a match; distinct by (pattern, haystack, offset)"
-	np, L, nh := 260, 3, 6
+	np, L, nh := 800, 3, 6
 	if r.Tier == "thorough" {
 		np, L, nh = 2500, 4, 12
 	}
